@@ -9,7 +9,7 @@ TECH_AB = TECH_A + "; traces recorded from the real code validated against a TLA
 
 CLAIMS = {
  "C01": dict(
-    text="LiquidSyntax models the parser protocol as a pushdown machine over the element stream of the lax grammar (open blocks with their modes, raw and comment scanning, else/elsif/when contexts, EOI inside a block = unclosed) ending in accept / reject / unspecified; TLC enumerates every element sequence up to the bound, checks that the machine is never stuck (no expect can fire) and that accept implies every block closed, and every sequence is parsed by the real parser under three configurations and compared with the verdict (a panic, abort or hang is a disagreement of the record in flight; rejections must carry a message). Random longer token soups, lexical sequences inside host tags, nesting towers to depth 32 and character-level mutations of valid templates are parsed and their Call/Return trace validated with TLC (Trace_Calls): a call without a Return, or a rejection without a message, has no explanation. LiquidLex transcribes the inner grammar (grammar.pest) as the PEG it is and LiquidArgs every stdlib tag's argument consumer; TLC enumerates every concatenation of lexical pieces inside 15 host tags, derives accept / reject (and, without filters, the program LiquidInterp runs and its output) and the harness parses and renders the same text.",
+    text="LiquidSyntax models the parser protocol as a pushdown machine over the element stream of the lax grammar (open blocks with their modes, raw and comment scanning, else/elsif/when contexts, EOI inside a block = unclosed) ending in accept / reject / unspecified; TLC enumerates every element sequence up to the bound, checks that the machine is never stuck (no expect can fire) and that accept implies every block closed, and every sequence is parsed by the real parser under three configurations and compared with the verdict (a panic, abort or hang is a disagreement of the record in flight; rejections must carry a message). Random longer token soups, lexical sequences inside host tags, nesting towers to depth 32 and character-level mutations of valid templates are parsed and their Call/Return trace validated with TLC (Trace_Calls): a call without a Return, or a rejection without a message, has no explanation. LiquidLex transcribes the inner grammar (grammar.pest) as the PEG it is and LiquidArgs every stdlib tag's argument consumer; TLC enumerates every concatenation of lexical pieces inside 15 host tags, derives accept / reject (and, without filters, the program LiquidInterp runs and its output) and the harness parses and renders the same text. Comments from text (nested, malformed headers and end tags, invalid liquid inside) are decided by LiquidParse (stage `comments-from-text`); inputs of 16 - 96 KB are part of the soups.",
     note="bounded: element sequences <= 4 structural / <= 2 full alphabet (quick), <= 5 / <= 3 (thorough); argument texts of <= 2 pieces (generic 44-piece alphabet) and <= 2 / 3 pieces of the host's own vocabulary; four repaired defects (EOI inside nested block in a comment, 20-digit integer literal, error-path re-parse).",
     tech=TECH_AB, ref="DESIGN.md 7 C01"),
  "C02": dict(
@@ -45,7 +45,7 @@ CLAIMS = {
     note="bounded as C08; in-memory source only.",
     tech=TECH_A, ref="DESIGN.md 7 C19"),
  "C09": dict(
-    text="A history level over LiquidInterp: BeginRender rebuilds every per-render variable and keeps only the parser's partial store; TLC explores every history of render calls (successful and failing midway) and checks that each call's result equals the function of (template, data) computed from a fresh state and that nothing but the store survives; the harness replays every history on one shared real Parser and its Templates, and on a freshly built parser, comparing every call with the specification.",
+    text="A history level over LiquidInterp: BeginRender rebuilds every per-render variable and keeps only the parser's partial store; TLC explores every history of render calls (successful and failing midway) and checks that each call's result equals the function of (template, data) computed from a fresh state and that nothing but the store survives; the harness replays every history on one shared real Parser and its Templates, and on a freshly built parser, comparing every call with the specification. Templates that use filters (which LiquidInterp does not evaluate) are covered by TLC-enumerated `free` histories: every call on the shared parser must equal the same call executed alone on a fresh parser in a fresh thread (MC_C09F).",
     note="bounded: histories of 3 calls over 3 templates x 3 data x 3 template triples x {lazy, eager} exhaustively; length 6 by random walks (thorough).",
     tech=TECH_A, ref="DESIGN.md 7 C09"),
  "C10": dict(
